@@ -54,7 +54,7 @@ func main() {
 			fmt.Printf("---- %s ----\n%s\n", d, s)
 		}
 	case "verify":
-		e, err := loadEngine(*repo, "")
+		e, err := loadEngine(*repo, os.Getenv("GOVC_GOARCH"))
 		if err != nil {
 			fmt.Fprintln(os.Stderr, "error:", err)
 			os.Exit(2)
@@ -119,7 +119,7 @@ func main() {
 		}
 		results = append(results, lemmaResults...)
 		gen := time.Since(t0)
-		to := 10 * time.Second
+		to := 20 * time.Second
 		if *timeout > 0 {
 			to = time.Duration(*timeout) * time.Second
 		}
@@ -129,7 +129,7 @@ func main() {
 		}
 		os.RemoveAll(od)
 		t1 := time.Now()
-		dischargeAll(results, solveOpts{OutDir: od, Timeout: to, Seed: seed, Jobs: 12})
+		dischargeAll(results, solveOpts{OutDir: od, Timeout: to, Seed: seed, Jobs: 8})
 		bad := 0
 		for _, r := range results {
 			if r.Trusted != "" {
